@@ -9,26 +9,27 @@ Import ListNotations.
 Section NoTrace.
 Variable ids : nat -> string.
 Hypothesis ids_inj : forall a b, ids a = ids b -> a = b.
-Hypothesis ids_uuid : forall a, looksLikeUUID (ids a) = true.
+Variable N : nat.
+Hypothesis ids_uuid : forall a, a < N -> looksLikeUUID (ids a) = true.
 Variable sanitize : string -> string.
 Variable unit_ok : string -> bool.
 
-Notation Inv := (Inv ids).
-Notation fresh := (fresh ids).
+Notation Inv := (Inv ids N).
+Notation fresh := (fresh ids N).
 Notation stepR := (step ids sanitize unit_ok repaired).
 
 Theorem inv_step s o : Inv s -> fresh s -> Inv (fst (stepR s o)).
 Proof.
-  intros H F. pose proof (step_shape ids ids_inj ids_uuid sanitize unit_ok s o H F) as S. unfold shape in S.
+  intros H F. pose proof (step_shape ids ids_inj N ids_uuid sanitize unit_ok s o H F) as S. unfold shape in S.
   destruct (stepR s o) as [s' r]. simpl in *. destruct r.
   - eapply trans_inv; eauto.
-  - destruct S; subst; auto. apply inv_bump; auto.
+  - destruct S; subst; auto. apply inv_bump; auto. apply F.
   - contradiction.
 Qed.
 
 Theorem step_never_ub s o w : Inv s -> fresh s -> snd (stepR s o) <> UB w.
 Proof.
-  intros H F. pose proof (step_shape ids ids_inj ids_uuid sanitize unit_ok s o H F) as S. unfold shape in S.
+  intros H F. pose proof (step_shape ids ids_inj N ids_uuid sanitize unit_ok s o H F) as S. unfold shape in S.
   destruct (stepR s o) as [s' r]. simpl in *. destruct r; try discriminate. contradiction.
 Qed.
 
@@ -38,14 +39,14 @@ Proof. reflexivity. Qed.
 (** C08 *)
 Theorem rejected_no_trace s o s' e : Inv s -> fresh s -> stepR s o = (s', Err e) -> observe s' = observe s.
 Proof.
-  intros H F E. pose proof (step_shape ids ids_inj ids_uuid sanitize unit_ok s o H F) as S. unfold shape in S.
+  intros H F E. pose proof (step_shape ids ids_inj N ids_uuid sanitize unit_ok s o H F) as S. unfold shape in S.
   rewrite E in S. simpl in S. destruct S; subst; auto.
 Qed.
 
 (** a rejected call does not even change the state, except that an id of the supply may have been consumed *)
 Theorem rejected_state s o s' e : Inv s -> fresh s -> stepR s o = (s', Err e) -> s' = s \/ s' = bump s.
 Proof.
-  intros H F E. pose proof (step_shape ids ids_inj ids_uuid sanitize unit_ok s o H F) as S. unfold shape in S.
+  intros H F E. pose proof (step_shape ids ids_inj N ids_uuid sanitize unit_ok s o H F) as S. unfold shape in S.
   rewrite E in S. exact S.
 Qed.
 
